@@ -485,6 +485,7 @@ package valid
 //@ pred bucket.ok(b []*valid.name2Value) = forall(j Int :: {b[j]} 0 <= j && j < len(b) ==> b[j] != nil && allocated(b[j]) && rv.valid(b[j].reflectVal) && !rv.ro(b[j].reflectVal))
 //@ pred vc.ok(c *valid.validCommon) = c != nil && (c.valid2FieldsMap != nil ==> forall(k String :: has(c.valid2FieldsMap, k) ==> bucket.ok(c.valid2FieldsMap[k]) && allocated(sliceptr(c.valid2FieldsMap[k])))
 //@     && forall(k1 String, k2 String :: has(c.valid2FieldsMap, k1) && has(c.valid2FieldsMap, k2) && k1 != k2 ==> sliceptr(c.valid2FieldsMap[k1]) != sliceptr(c.valid2FieldsMap[k2])))
+//@ pred rmOf(v *valid.VStruct, t) = ite(v.ruleMap != nil && has(v.ruleMap, t), v.ruleMap[t], nil)
 //@ pred vs.ok(v *valid.VStruct) = v != nil && v.errBuf != nil && vc.ok(v.vc)
 //@ pred vv.ok(v *valid.VVar) = v != nil && v.errBuf != nil && vc.ok(v.vc)
 //@ pred vm.ok(v *valid.VMap) = v != nil && v.errBuf != nil && vc.ok(v.vc)
@@ -603,18 +604,28 @@ package valid
 //@   modifies sb.content(v.errBuf), v.ruleMap, v.vc
 
 //@ func (*VStruct).SetRule
+//@   ensures [C16 setrule.outer] len(obj) == 0 ==> v.ruleMap != nil && has(v.ruleMap, validOnlyOuterObj) && v.ruleMap[validOnlyOuterObj] == rule
+//@   ensures [C16 setrule.many] len(obj) >= 2 ==> v.ruleMap == old(v.ruleMap)
 //@   requires vs.ok(v)
 //@   requires [C13 setrule.key] len(obj) == 1 ==> obj[0] != nil
 //@   modifies v.ruleMap, mapof(v.ruleMap)
 //@   ensures result == v && vs.ok(v)
 
 //@ func (*VStruct).required
+//@   let k = rv.kind(tv)
+//@   let empty = ((k == 23 || k == 17 || k == 21) && rv.len(tv) == 0) || rv.isZero(tv)
+//@   ensures [C03 required.violated] empty ==> sb.nw(v.errBuf) == old(sb.nw(v.errBuf)) + 1
+//@   ensures [C03 required.scalar] !empty && k != 22 && k != 25 && k != 23 && k != 17 && k != 21 ==> sb.nw(v.errBuf) == old(sb.nw(v.errBuf))
 //@   at call GetJoinValidErrStr#* assert [C15 required.msg] cusMsg != "" ==> len(others) == 1 && others[0] == cusMsg
 //@   requires vs.ok(v) && cache.inv() && rv.valid(tv) && !rv.ro(tv)
 //@   modifies sb.content(v.errBuf), sb.nw(v.errBuf), cache.stored, lst.mem, lst.stamp, lst.size, mu.held, mu.acq, cb.count, cb.key, cb.val, "H.container/list.Element.Value", v.vc.valid2FieldsMap, "MapDom.String.Slice", "MapVal.String.Slice", "MapLen.String.Slice", "Mem.Int"
 //@   ensures vs.ok(v) && cache.inv()
 
 //@ func (*VStruct).exist
+//@   ensures [C04 exist.zero] rv.isZero(tv) ==> sb.nw(v.errBuf) == old(sb.nw(v.errBuf)) && sb.content(v.errBuf) == old(sb.content(v.errBuf))
+//@   ensures [C03 exist.scalar] !isValidTvKind && rv.kind(tv) != 22 && rv.kind(tv) != 25 && rv.kind(tv) != 23 && rv.kind(tv) != 17 && rv.kind(tv) != 21 ==> sb.nw(v.errBuf) == old(sb.nw(v.errBuf))
+//@   loop#0 exhaustive [C02 C04 C17 walk.all]
+//@   loop#1 exhaustive [C02 C04 C17 walk.all]
 //@   requires vs.ok(v) && cache.inv() && rv.valid(tv) && !rv.ro(tv)
 //@   modifies sb.content(v.errBuf), sb.nw(v.errBuf), cache.stored, lst.mem, lst.stamp, lst.size, mu.held, mu.acq, cb.count, cb.key, cb.val, "H.container/list.Element.Value", v.vc.valid2FieldsMap, "MapDom.String.Slice", "MapVal.String.Slice", "MapLen.String.Slice", "Mem.Int"
 //@   ensures vs.ok(v) && cache.inv()
@@ -622,6 +633,12 @@ package valid
 //@   loop#1 invariant vs.ok(v) && cache.inv() && iter != nil && mi.src(iter) == tv && mi.pos(iter) >= -1
 
 //@ func (*VStruct).validate
+//@   at call CommonValidFn#0 assert [C18 struct.carries] arg1 == validName && arg4 == rv.field(tv, fieldNum)
+//@   at call ValidNamesSplit#0 assert [C16 effective.rule] s == ite(cusRM != nil && len(cusRM) > 0 && fieldInfo.name != "" && has(cusRM, fieldInfo.name) && cusRM[fieldInfo.name] != "", cusRM[fieldInfo.name], cacheStructType.fieldInfos[fieldNum].validNames)
+//@   at call required#0 assert [C15 C03 required.args] arg3 == ParseValidNameKV.cusMsg(validName) && arg4 == rv.field(tv, fieldNum)
+//@   loop#0 invariant [C16 scope] cusRM == ite(structName$0 == "", ite(len(rmOf(v, ty)) > 0, rmOf(v, ty), rmOf(v, validOnlyOuterObj)), rmOf(v, ty))
+//@   loop#0 exhaustive [C02 C04 C17 walk.all]
+//@   loop#1 exhaustive [C02 C04 C17 walk.all]
 //@   requires vs.ok(v) && cache.inv() && !rv.ro(value)
 //@   modifies sb.content(v.errBuf), sb.nw(v.errBuf), cache.stored, lst.mem, lst.stamp, lst.size, mu.held, mu.acq, cb.count, cb.key, cb.val, "H.container/list.Element.Value", v.vc.valid2FieldsMap, "MapDom.String.Slice", "MapVal.String.Slice", "MapLen.String.Slice", "Mem.Int"
 //@   ensures [C08 C12 validate.post] result == v && vs.ok(v) && cache.inv()
@@ -634,22 +651,43 @@ package valid
 //@   ensures vc.ok(v)
 
 //@ func (*validCommon).either
+//@   requires len(fieldInfos) >= 1
+//@   ensures [C17 either.single] len(fieldInfos) == 1 ==> sb.nw(errBuf) == old(sb.nw(errBuf)) + 1
+//@   ensures [C17 either.verdict] len(fieldInfos) >= 2 ==> ((sb.nw(errBuf) > old(sb.nw(errBuf))) <==> forall(j Int :: {fieldInfos[j]} 0 <= j && j < len(fieldInfos) ==> rv.isZero(fieldInfos[j].reflectVal)))
+//@   loop#0 invariant errBuf != nil && fieldInfoBuf != nil && fresh(fieldInfoBuf) && l == len(fieldInfos) && sb.nw(errBuf) == old(sb.nw(errBuf)) && sb.content(errBuf) == old(sb.content(errBuf))
+//@   loop#0 invariant 0 <= isZeroLen && isZeroLen <= rangeindex + 1 && (isZeroLen == rangeindex + 1 <==> forall(j Int :: {fieldInfos[j]} 0 <= j && j <= rangeindex ==> rv.isZero(fieldInfos[j].reflectVal)))
+//@   ensures [C02 C17 group.once] sb.nw(errBuf) <= old(sb.nw(errBuf)) + 1 && prefixof(old(sb.content(errBuf)), sb.content(errBuf))
+//@   loop#0 exhaustive [C02 C04 C17 walk.all]
 //@   requires errBuf != nil && bucket.ok(fieldInfos)
 //@   modifies sb.content(errBuf), sb.nw(errBuf)
 
 //@ func (*validCommon).bothEq
+//@   requires len(fieldInfos) >= 1
+//@   ensures [C17 botheq.single] len(fieldInfos) == 1 ==> sb.nw(errBuf) == old(sb.nw(errBuf)) + 1
+//@   ensures [C17 botheq.verdict] len(fieldInfos) >= 2 ==> ((sb.nw(errBuf) > old(sb.nw(errBuf))) <==> !forall(j Int :: {fieldInfos[j]} 1 <= j && j < len(fieldInfos) ==> deepEqual(rv.iface(fieldInfos[0].reflectVal), rv.iface(fieldInfos[j].reflectVal))))
+//@   loop#0 invariant errBuf != nil && fieldInfoBuf != nil && fresh(fieldInfoBuf) && l == len(fieldInfos) && sb.nw(errBuf) == old(sb.nw(errBuf)) && sb.content(errBuf) == old(sb.content(errBuf))
+//@   loop#0 invariant (rangeindex >= 0 ==> tmp == rv.iface(fieldInfos[0].reflectVal)) && (eq <==> forall(j Int :: {fieldInfos[j]} 1 <= j && j <= rangeindex ==> deepEqual(rv.iface(fieldInfos[0].reflectVal), rv.iface(fieldInfos[j].reflectVal))))
+//@   ensures [C02 C17 group.once] sb.nw(errBuf) <= old(sb.nw(errBuf)) + 1 && prefixof(old(sb.content(errBuf)), sb.content(errBuf))
+//@   loop#0 exhaustive [C02 C04 C17 walk.all]
 //@   requires errBuf != nil && bucket.ok(fieldInfos)
 //@   modifies sb.content(errBuf), sb.nw(errBuf)
 
 //@ func (*validCommon).valid
+//@   loop#0 invariant prefixof(old(sb.content(errBuf)), sb.content(errBuf)) && vc.ok(v) && errBuf != nil
+//@   ensures [C02 groups.append] prefixof(old(sb.content(errBuf)), sb.content(errBuf))
+//@   loop#0 exhaustive [C02 C04 C17 walk.all]
 //@   requires vc.ok(v) && errBuf != nil
 //@   modifies sb.content(errBuf), sb.nw(errBuf)
 
 //@ func (*VStruct).getError
+//@   at call New#0 assert [C02 geterror.text] sb.content(v.errBuf) != "" && text == ite(suffixof(ErrEndFlag, sb.content(v.errBuf)), sb.content(v.errBuf)[:len(sb.content(v.errBuf)) - len(ErrEndFlag)], sb.content(v.errBuf))
+//@   ensures [C02 geterror.nonnil] old(sb.content(v.errBuf)) != "" ==> result != nil
 //@   requires vs.ok(v)
 //@   modifies sb.content(v.errBuf), sb.nw(v.errBuf), v.ruleMap, v.vc
 
 //@ func (*VStruct).Valid
+//@   loop#0 exhaustive [C02 C04 C17 walk.all]
+//@   loop#1 exhaustive [C02 C04 C17 walk.all]
 //@   requires vs.ok(v) && cache.inv()
 //@   ensures [C08 entry.inv] cache.inv()
 //@   loop#0 invariant vs.ok(v) && cache.inv()
@@ -689,12 +727,17 @@ package valid
 //@   ensures [C16 fn.unknown] !(v.vc.validFn != nil && has(v.vc.validFn, validName)) && !has(validName2FnMap, validName) ==> result0 == nil && result1 != nil
 
 //@ func (*VVar).validate
+//@   at call GetJoinValidErrStr#* assert [C03 var.required] ((rv.kind(tv) == 17 || rv.kind(tv) == 23) && rv.len(tv) == 0) || rv.isZero(tv)
+//@   at call CommonValidFn#0 assert [C18 var.carries] arg1 == validName && arg4 == tv
+//@   loop#0 exhaustive [C02 C04 C17 walk.all]
 //@   requires vv.ok(v) && rv.valid(tv) && !rv.ro(tv)
 //@   modifies sb.content(v.errBuf), sb.nw(v.errBuf)
 //@   ensures result == v && vv.ok(v)
 //@   loop#0 invariant vv.ok(v)
 
 //@ func (*VVar).getError
+//@   at call New#0 assert [C02 geterror.text] sb.content(v.errBuf) != "" && text == ite(suffixof(ErrEndFlag, sb.content(v.errBuf)), sb.content(v.errBuf)[:len(sb.content(v.errBuf)) - len(ErrEndFlag)], sb.content(v.errBuf))
+//@   ensures [C02 geterror.nonnil] old(sb.content(v.errBuf)) != "" ==> result != nil
 //@   requires vv.ok(v)
 
 //@ func (*VVar).Valid
@@ -726,6 +769,10 @@ package valid
 //@   modifies nothing
 
 //@ func (*VMap).validate
+//@   at call GetJoinValidErrStr#* assert [C03 map.required] rv.isZero(val)
+//@   at call CommonValidFn#0 assert [C18 map.carries] arg1 == validName && arg4 == rv.mapVal(tv, mi.pos(mapIter))
+//@   loop#0 exhaustive [C02 C04 C17 walk.all]
+//@   loop#1 exhaustive [C02 C04 C17 walk.all]
 //@   requires vm.ok(v) && rv.valid(tv) && !rv.ro(tv)
 //@   modifies sb.content(v.errBuf), sb.nw(v.errBuf), v.vc.valid2FieldsMap, "MapDom.String.Slice", "MapVal.String.Slice", "MapLen.String.Slice", "Mem.Int"
 //@   ensures result == v && vm.ok(v)
@@ -733,9 +780,12 @@ package valid
 //@   loop#1 invariant vm.ok(v) && mapIter != nil && mi.src(mapIter) == tv && 0 <= mi.pos(mapIter) && mi.pos(mapIter) < rv.len(tv)
 
 //@ func (*VMap).getError
+//@   at call New#0 assert [C02 geterror.text] sb.content(v.errBuf) != "" && text == ite(suffixof(ErrEndFlag, sb.content(v.errBuf)), sb.content(v.errBuf)[:len(sb.content(v.errBuf)) - len(ErrEndFlag)], sb.content(v.errBuf))
+//@   ensures [C02 geterror.nonnil] old(sb.content(v.errBuf)) != "" ==> result != nil
 //@   requires vm.ok(v)
 
 //@ func (*VMap).Valid
+//@   loop#0 exhaustive [C02 C04 C17 walk.all]
 //@   requires vm.ok(v)
 //@   loop#0 invariant vm.ok(v) && 0 <= i && l == rv.len(tv)
 
@@ -761,6 +811,11 @@ package valid
 //@   ensures [C16 fn.unknown] !(v.vc.validFn != nil && has(v.vc.validFn, validName)) && !has(validName2FnMap, validName) ==> result0 == nil && result1 != nil
 
 //@ func (*VUrl).validate
+//@   at call Get#0 assert [C03 C17 C18 url.item] key == ite(len(key2val) > 0, key2val[0], "") && val == ite(len(key2val) > 1, key2val[1], "")
+//@   at call GetJoinValidErrStr#* assert [C03 url.required] val == ""
+//@   at call CommonValidFn#0 assert [C18 url.carries] arg1 == validName && rv.kind(arg4) == 24 && rv.str(arg4) == val
+//@   loop#0 exhaustive [C02 C04 C17 walk.all]
+//@   loop#1 exhaustive [C02 C04 C17 walk.all]
 //@   requires vu.ok(v)
 //@   modifies sb.content(v.errBuf), sb.nw(v.errBuf), v.vc.valid2FieldsMap, "MapDom.String.Slice", "MapVal.String.Slice", "MapLen.String.Slice", "Mem.Int"
 //@   ensures result == v && vu.ok(v)
@@ -768,6 +823,8 @@ package valid
 //@   loop#1 invariant vu.ok(v)
 
 //@ func (*VUrl).getError
+//@   at call New#0 assert [C02 geterror.text] sb.content(v.errBuf) != "" && text == ite(suffixof(ErrEndFlag, sb.content(v.errBuf)), sb.content(v.errBuf)[:len(sb.content(v.errBuf)) - len(ErrEndFlag)], sb.content(v.errBuf))
+//@   ensures [C02 geterror.nonnil] old(sb.content(v.errBuf)) != "" ==> result != nil
 //@   requires vu.ok(v)
 
 //@ func (*VUrl).Valid
